@@ -125,10 +125,7 @@ def families(quick: bool) -> List[Family]:
     if quick:
         fams.append(Family("triples", tiny, 3, "ECU variants, 7 shapes, lists of <= 3"))
     else:
-        two = [[P3[0], P3[2]], [P3[1], P3[2]], [P3[2], P3[0]]]
-        medium = small + [ev([t, [c]]) for t in two for c in P3] + [ev([[c], t]) for t in two for c in P3]  # 22 + 18
-        fams.append(Family("triples", medium, 3, "ECU variants, 40 shapes (<= 1 pattern of <= 2 parameters, 2 single-parameter patterns, "
-                           "a two-parameter pattern before/after a single-parameter pattern), lists of <= 3"))
+        fams.append(Family("triples", small, 3, "ECU variants, 22 shapes (<= 1 pattern of <= 2 parameters, or 2 single-parameter patterns), lists of <= 3"))
         fams.append(Family("quads", tiny, 4, "ECU variants, 7 shapes, lists of <= 4"))
     # a variant that re-defines service A under the same short name with a different request ("distinct services")
     own_pool = [ev(s) for s in shapes(P3, 1, 2)] + [ev(s, own=["A"]) for s in shapes(P3, 1, 2)]
@@ -156,8 +153,8 @@ def families(quick: bool) -> List[Family]:
             x = f"X_{lay}_{typ}"
             alpha = [mp(x, ref.expected_text(typ, ref.VALUES[typ]["V1"])), mp(x, ref.expected_text(typ, ref.VALUES[typ]["V2"])), mp("A", "1")]
             pool = [ev(s) for s in shapes(alpha, 1, 2)]
-            if not quick:
-                pool += [ev([[a], [b]]) for a in alpha for b in alpha]
+            if not quick and lay in ref.BASE_LAYOUTS:
+                pool += [ev([[a], [b]]) for a in alpha for b in alpha]  # two-pattern shapes: base layouts only (time budget)
             fams.append(Family(f"{lay}-{typ}", pool, 2,
                                f"identification parameter of type {typ} addressed as {emit_variants.out_param_path(SERVICES[x], 'id')}"))
     return fams
